@@ -394,6 +394,83 @@ func runC11(c *Ctx) {
 		}
 	}
 	queueNextRepr(c, "C11.repr")
+	// ---- who may write the representation
+	c.Rule("C11.repr-writers", "package coalesce (non-test): Queue.queue and Queue.coalesced are written (stores, map inserts/deletes) only by the constructor, by insert and next - whose transitions C11.repr decides - and by unexported helpers that are called from those two only; any other writer changes the queue behind the decided transitions")
+	{
+		writes := func(f *ssa.Function) bool {
+			w := false
+			instrs(f, func(in ssa.Instruction) {
+				switch x := in.(type) {
+				case *ssa.Store:
+					if fl := fieldOf(x.Addr); fl == fQueue || fl == fCoal {
+						if fa, ok := x.Addr.(*ssa.FieldAddr); ok {
+							if _, isAlloc := fa.X.(*ssa.Alloc); !isAlloc {
+								w = true
+							}
+						}
+					}
+					// element store q.queue[i] = v
+					if ia, ok := x.Addr.(*ssa.IndexAddr); ok && (loadOfField(ia.X, fQueue)) {
+						w = true
+					}
+				case *ssa.MapUpdate:
+					if loadOfField(x.Map, fCoal) {
+						w = true
+					}
+				case *ssa.Call:
+					if b, ok := x.Call.Value.(*ssa.Builtin); ok && b.Name() == "delete" && loadOfField(x.Call.Args[0], fCoal) {
+						w = true
+					}
+				}
+			})
+			return w
+		}
+		fns := P.PkgFuncs("coalesce")
+		callers := map[*ssa.Function][]*ssa.Function{}
+		for _, f := range fns {
+			if P.InTestFile(f) {
+				continue
+			}
+			for _, g := range withAnon(f) {
+				for _, ci := range callsIn(g) {
+					if cal := staticCallee(ci.Common()); cal != nil {
+						callers[cal] = append(callers[cal], f)
+					}
+				}
+			}
+		}
+		allowed := map[*ssa.Function]bool{insert: true, NewQueue: true}
+		if nx := P.Method("coalesce", "Queue", "next"); nx != nil {
+			allowed[nx] = true
+		}
+		var ok func(f *ssa.Function, d int) bool
+		ok = func(f *ssa.Function, d int) bool {
+			if allowed[f] {
+				return true
+			}
+			if d > 4 || isExportedFn(f) || len(callers[f]) == 0 {
+				return false
+			}
+			for _, cl := range callers[f] {
+				if !ok(cl, d+1) {
+					return false
+				}
+			}
+			return true
+		}
+		n := 0
+		for _, f := range fns {
+			if P.InTestFile(f) || f.Parent() != nil {
+				continue
+			}
+			if !writes(f) {
+				continue
+			}
+			n++
+			c.Check(ok(f, 0), "C11.repr-writers", fnName(f), "writes the queue representation", P.Pos(f.Pos()), "not the constructor, insert, next or a helper reachable only from them")
+		}
+		c.Floor("C11.repr-writers/writers", n, 2)
+	}
 }
 
 // queueNextRepr checks the representation-level dequeue discipline of coalesce.(*Queue).next
